@@ -314,8 +314,23 @@ def star_decl_from_lines(lines):
 
 META = {
     "level": "proof",
-    "text": "",
-    "note": "",
-    "technique": "Coq proof + extracted-model differential correspondence on enumerated platforms",
-    "claimed": False,
+    "text": "Torus and Star (scope: fat-tree and dragonfly are NOT covered). Coq theorems for ALL dimension vectors (sizes >= 1) and all "
+            "ranks about a line-by-line model of TorusZone::get_local_route/create_torus_links: the hops are exactly 'dimension after "
+            "dimension' (C26_torus_dimension_by_dimension, C26_torus_dim_order), per dimension min((t-m) mod d, (m-t) mod d) hops all "
+            "in the same, shorter, direction (C26_torus_hops), they form a walk src->dst of single +-1 steps (C26_torus_walk, "
+            "C26_torus_hop_one_step) over the link created between the two ends (C26_torus_link_joins_hop); loopback only for "
+            "src = dst and alone, limiters of every visited node in order (C26_loopback_limiter). Star: the route is the source's up links "
+            "then the destination's down links, first occurrences only, no link twice, exactly up ++ down when that has no repeat "
+            "(C26_star_up_down_no_repeat, C26_star_first_occurrences). Tie: routing_drv builds each platform with the C++ API of the "
+            "rebuilt library and Host::route_to of ALL ordered pairs is compared link by link with the extracted functions; thorough "
+            "tier enumerates every torus shape with all sizes >= 2, <= 5 dimensions, <= 64 nodes. A torus route that differs from the "
+            "model is judged by the property itself (dimension order, shorter way, joining links, limiters): ties broken the other way "
+            "are accepted.",
+    "note": "NOT covered: FatTreeZone and DragonflyZone (no model, no theorem, not exercised); cluster zones whose leaves are netzones "
+            "(gateways). The torus acceptance oracle for routes that differ from the model is Python (unverified); routes equal to the "
+            "model are covered by the theorems. Shapes with two or more dimensions of size 1 abort at creation (duplicate link name) "
+            "and are excluded. Assumed: ranks and products fit the C++ machine integers; host callbacks create hosts in rank order. "
+            "Trusted: Coq kernel, extraction, routing_drv, the Python generator and link-name mapping.",
+    "technique": "Coq proof (mixed-radix arithmetic, induction over dimensions) + extracted-model differential correspondence on enumerated platforms",
+    "claimed": True,
 }
